@@ -19,6 +19,8 @@ reload <g>/<idx:n,...|->/<new:old,...|-> ... | <oracle>     (ControlPlane.Inheri
 handover o/<gname>/<n:name,..> ... n/<gid>/<gname>/<idx:n,..|->/<n:name,..> ... | <oracle>
         (InheritDialerHealthFrom given both generations; the MODEL does the group-name/node-name matching)
 kcb <outbound> <typ> <alive> <isInit> <dryrun> <retired> <closed>  -> key=.. val=.. | unchanged
+wire <g> <core> <outbound> <dryrun>   (before `group g`: which core's closure the group gets)  -> ok
+silence <core>                        (MarkRetired / core closed)
 typidx <typ>           -> idx=<Index()> udp=<0/1> data=<0/1>
 consts                 -> the model's constants
 key <outbound> <typ> <alive>   -> kernel key/value
@@ -28,10 +30,13 @@ oracle = `g.idx.n:rawNs` tokens.  Every event answers with the complete state (s
 open DaeVerif DaeVerif.C16 DaeVerif.Proto
 
 structure DState where
-  w : World
+  kw : KWorld
   nodeIds : List Nat
+  wired : List Nat := []      -- group ids wired to a core, in order
 
-def DState.init : DState := ⟨World.init, []⟩
+def DState.init : DState := ⟨KWorld.init, [], []⟩
+
+def DState.w (st : DState) : World := st.kw.w
 
 def parseTyp? : String → Option Typ
   | "t4" => some .t4 | "t6" => some .t6 | "T4" => some .T4 | "T6" => some .T6
@@ -195,8 +200,18 @@ def showWorld (st : DState) (outs : List Out) : String :=
   let ss := ";".intercalate (w.sets.map showSet)
   let pf := sortBy (fun (a b : FailEntry) => a.1 ≤ b.1) w.failures
   let pfs := ",".intercalate (pf.map fun e => s!"{e.1}:{e.2.1}")
-  let kb := String.ofList (w.sets.map fun s => if s.kbit then '1' else '0')
-  s!"N[{ns}] {showOuts outs} S[{ss}] K[{kb}] P[now={w.now} sup={boolStr w.suppressed} pf={pfs}]"
+  -- kernel bit of a set: the shared map's slot when the group is wired to a core, else the per-set ghost
+  let kb := String.ofList (w.sets.map fun s =>
+    match st.kw.wiring s.gid with
+    | some k => (match st.kw.kmap (kernelKey k.ob s.idx) with | 0 => '0' | 1 => '1' | _ => '?')
+    | none => if s.kbit then '1' else '0')
+  -- the six map slots of every wired group's outbound id
+  let mm := ";".intercalate (st.wired.map fun g =>
+    match st.kw.wiring g with
+    | some k => String.ofList ((List.range 6).map fun j => (toString (st.kw.kmap (k.ob * 6 + j))).toList.headD '?')
+    | none => "")
+  let mstr := if st.wired.isEmpty then "" else s!" M[{mm}]"
+  s!"N[{ns}] {showOuts outs} S[{ss}] K[{kb}] P[now={w.now} sup={boolStr w.suppressed} pf={pfs}]{mstr}"
 
 def handle (st : DState) (line : String) : DState × String :=
   match words line with
@@ -220,15 +235,30 @@ def handle (st : DState) (line : String) : DState × String :=
       | some kv => (st, s!"key={kv.1} val={kv.2}")
       | none => (st, "unchanged")
     | _, _ => (st, "bad-op")
+  | ["wire", g, c, ob, d] =>
+    match g.toNat?, c.toNat?, ob.toNat? with
+    | some g, some c, some ob => (⟨kstep st.kw (.wire g c ob (d == "1")), st.nodeIds, st.wired ++ [g]⟩, "ok")
+    | _, _, _ => (st, "bad-op")
+  | ["silence", c] =>
+    match c.toNat? with
+    | some c => let st' : DState := ⟨kstep st.kw (.silence c), st.nodeIds, st.wired⟩; (st', showWorld st' [])
+    | none => (st, "bad-op")
   | ws =>
     match parseEvent? ws with
     | none => (st, "bad-op")
     | some e =>
       let r := step st.w e
+      let kw' := kstep st.kw (.base e)
       let ids := match e with
         | .node n _ => if st.nodeIds.contains n then st.nodeIds else st.nodeIds ++ [n]
         | _ => st.nodeIds
-      let st' : DState := ⟨r.1.tab ids, ids⟩
+      let st' : DState := ⟨{ kw' with w := kw'.w.tab ids }, ids, st.wired⟩
       (st', showWorld st' r.2)
 
-def main : IO Unit := lineLoopS DState.init handle
+/-- `quiet <op>`: execute, answer `SETUP` (used when the real code performs a whole batch at once) -/
+def handle' (st : DState) (line : String) : DState × String :=
+  match words line with
+  | "quiet" :: rest => ((handle st (" ".intercalate rest)).1, "SETUP")
+  | _ => handle st line
+
+def main : IO Unit := lineLoopS DState.init handle'
